@@ -284,7 +284,9 @@ func TestC08(t *testing.T) {
 		g := gen.Graph(t, o)
 		g, refused := gen.Break(t, g, 70, 8)
 		c := c08Case{Graph: g, Refused: refused, Continue: rapid.Bool().Draw(t, "continue")}
+		vstat.InFlight("C08", "expandspec", c)
 		f, info := oracleC08(c)
+		vstat.ClearInFlight("C08")
 		r.Eval()
 		r.LabelIf(c.Continue, "ContinueOnError")
 		r.LabelIf(info.dangling, "dangling $ref reachable")
